@@ -152,6 +152,7 @@ def fixed_points(acc: Acc) -> None:
 
 WORDS = ['if', 'else', 'def', 'in', 'not', 'x', 'kw', 'end', 'a\tb', 'k\tv w', '\r', '\n', 'a\rb', '\r\n', '\f', 'p\x0bq']  # (some with literal control characters: tab, CR, LF, FF, VT)
 SYMS = ['+', '-', '*', '(', ')', '[', ']', ',', ':', '=', '.', '==', '->', ':=']
+PLAIN_WORDS = ['if', 'else', 'def', 'in', 'not', 'x', 'kw', 'end']
 REGEXPS = ['[\\\\\\/]', 'a\\\\\\/b', '\\\\', '[a-z]+', '[A-Z]\\w*', '0|[1-9]\\d*', '[-+]', '[*\\/%]', '<|>|==', '\\*{1,2}', '\\/', '\\/\\/', '[a-z]+:\\/\\/', '\\/[*]']
 
 
@@ -181,6 +182,10 @@ class GGen:
 			self.feats.add('backslash-word')
 			return self.make('"\\' + r.choice(['INDENT', 'DEDENT', 'OP_UNARY_MINUS']) + '"')
 		self.feats.add('regexp')
+		if x < 0.84:
+			# the body of a string terminal of the same pool as a regexp: the two kinds stay apart whatever was printed before
+			self.feats.add('regexp-with-string-body')
+			return self.make('/' + r.choice(PLAIN_WORDS) + '/')
 		return self.make('/' + r.choice(REGEXPS) + '/')
 
 	# Canonical shapes (exactly what Rules.from_ast can produce, i.e. what the meta-grammar can express):
@@ -252,6 +257,8 @@ class GGen:
 
 def sample_for_regexp(r: random.Random, expr: str) -> str:
 	table = {'[\\\\\\/]': ['\\', '/'], 'a\\\\\\/b': ['a\\/b'], '\\\\': ['\\'], '\\/': ['/'], '\\/\\/': ['//'], '[a-z]+:\\/\\/': ['http://', 'a://'], '\\/[*]': ['/*'], '[a-z]+': ['a', 'foo', 'zed'], '[A-Z]\\w*': ['A', 'Foo', 'B_1'], '0|[1-9]\\d*': ['0', '7', '42'], '[-+]': ['+'], '[*\\/%]': ['*', '/', '%'], '<|>|==': ['<', '>', '=='], '\\*{1,2}': ['*', '**']}
+	if expr in PLAIN_WORDS:
+		return expr
 	return r.choice(table.get(expr, ['a']))
 
 
@@ -402,6 +409,14 @@ def fixed_witness(acc: Acc) -> None:
 			'grouped': PS([P('"kw"'), PS([PS([P(w) for w in wide], op=R.Operators.Or)]), P('"*"')]),
 			**{w: PS([P(f'"{w}_keyword"')]) for w in wide},
 		}),
+	]
+	# a string terminal and a regexp terminal with the same body, in both orders, in one rule set and in the next one (seeded C12/13: printed
+	# form memoised by role and expression)
+	fixed += [
+		R.Rules({'entry': PS([P('word'), P('"\\n"')]), 'word': PS([P('"ab"'), P('/ab/')], op=R.Operators.Or)}),
+		R.Rules({'entry': PS([P('word'), P('"\\n"')]), 'word': PS([P('/[a-z]+/'), P('"[a-z]+"')], op=R.Operators.Or)}),
+		R.Rules({'entry': PS([P('/kw/'), P('"\\n"')])}),
+		R.Rules({'entry': PS([P('"kw"'), P('/ab/'), P('"\\n"')])}),
 	]
 	for g in fixed:
 		text = g.pretty() + '\n'
